@@ -24,6 +24,7 @@ let int_of_n = function N0 -> 0 | Npos p -> int_of_pos p
 let rec int_of_nat = function O -> 0 | S n -> 1 + int_of_nat n
 
 let default_close = ref false
+let cur_maxbuf = ref N0
 let byte_tab = Array.init 256 n_of_int
 
 let hexval c = match c with
@@ -60,8 +61,11 @@ let dispatch_s d =
     | None -> "-"
     | Some c -> (match c.hc_who with TypeHandler -> "T" | DefaultHandler -> "D") ^ ":" ^ b01 c.hc_buffered
                 ^ ":" ^ md5 c.hc_offered ^ ":" ^ string_of_int (int_of_n c.hc_consumed) ^ ":" ^ b01 c.hc_panicked in
-  Printf.sprintf "%d,%d,%d,%d|%s|%s|%s|%d" (int_of_n h.h_ver) (int_of_n h.h_typ) (int_of_n h.h_len) (int_of_n h.h_id)
-    rep hd (b01 d.d_discarded) (int_of_n d.d_alloc)
+  let handed = match caller_handed !cur_maxbuf true d with
+    | None -> "-" | Some None -> "E"
+    | Some (Some (t, data)) -> "D:" ^ string_of_int (int_of_n t) ^ ":" ^ md5 data in
+  Printf.sprintf "%d,%d,%d,%d|%s|%s|%s|%d|%s" (int_of_n h.h_ver) (int_of_n h.h_typ) (int_of_n h.h_len) (int_of_n h.h_id)
+    rep hd (b01 d.d_discarded) (int_of_n d.d_alloc) handed
 
 let () =
   try
@@ -86,7 +90,8 @@ let () =
            let i = int_of_nat i in
            if i < Array.length entries then entries.(i) else { e_register = []; e_beh = HRead N0; e_close_sent = !default_close } in
          let st = { s_aw = List.map n_of_int (ints aw); s_closed_seen = false } in
-         let r = serve (n_of_int (int_of_string maxbuf)) cfg st envf (bytes_of_hex hex) in
+         cur_maxbuf := n_of_int (int_of_string maxbuf);
+         let r = serve !cur_maxbuf cfg st envf (bytes_of_hex hex) in
          List.iter (fun d -> print_string (dispatch_s d); print_char ' ') r.r_log;
          Printf.printf "END=%s REST=%s\n" (ending_s r.r_end) (md5 r.r_rest)
        | ["first"; maxbuf; hs; df; offers_default; hex] ->
